@@ -328,6 +328,7 @@ def emit_twin(sc, ops, mode, tag, save_every=1, check_every=5):
     if mode == "fin":
         sc.add("on F fin")
     sc.add("on F paircheck N", (tag, "check", len(ops)))
+    sc.add("on F dangling", (tag, "dangling"))
     sc.add("on F final", (tag, "final"))
     sc.add("on N final", (tag, "finalN"))
     sc.add("drop F")
